@@ -415,8 +415,61 @@ def rule_documentation(ctx):
                      "valid quote characters %r differ from the documented %r" % ("".join(sorted(quote_characters)), documented_quotes and "".join(documented_quotes)))
 
 
+def rule_property_row(ctx):
+    """
+    O11.7: a data-format row of the CID hands its cells to DataFormat / set_property faithfully - the property name
+    and the format name case-folded (they are case-insensitive), the VALUE cell unchanged (an item delimiter 'X' is
+    not 'x') - together with the row's location.
+    """
+    model = ctx.model
+    ctx.res.minimum("O11.7", 1)
+    cid_qualname = "cutplace.interface.Cid"
+
+    def cell(ch):
+        first = ch.choose("first data-format row", [True, False])
+        name = ch.choose("name cell", ["Item delimiter", "ITEM DELIMITER", "item delimiter", "Format", "format", "FORMAT", ""])
+        value = ch.choose("value cell", ["X", "Delimited", "\"X\"", "Ä", "lf", "CRLF"])
+        seen = []
+
+        @stub
+        def data_format_stub(interp_, args, kwargs):
+            seen.append(("DataFormat", args[0], args[1] if len(args) > 1 else kwargs.get("location")))
+            return Obj(model.cls(DATA_FORMAT), {"_format": args[0]}, label="data_format")
+
+        @stub
+        def set_property_stub(interp_, args, kwargs):
+            seen.append(("set_property", args[1], args[2], args[3] if len(args) > 3 else kwargs.get("location")))
+
+        interp = Interp(model, ch, stubs={DATA_FORMAT: data_format_stub, DATA_FORMAT + ".set_property": set_property_stub})
+        from ..world import World
+
+        world = World(model, interp, ch)
+        location = world.location(line=3)
+        cid = Obj(model.cls(cid_qualname), {"_location": location,
+                                            "_data_format": None if first else Obj(model.cls(DATA_FORMAT), {"_format": "delimited"})})
+        try:
+            interp.call_function(model.func(cid_qualname + ".add_data_format_row"), [cid, [name, value, "", "", "", ""]], {}, None)
+            outcome = "accepted"
+        except AbsRaise as raised:
+            outcome = "raise " + exc_name(raised.value)
+        key = "first=%s name=%r value=%r" % (first, name, value)
+        is_format = name.lower() == "format"
+        if name == "" or (first and not is_format) or (not first and is_format):
+            return (key, outcome, "raise InterfaceError")
+        if first:
+            expected = [("DataFormat", value.lower())]
+            actual = [entry[:2] for entry in seen]
+        else:
+            expected = [("set_property", name.lower(), value)]
+            actual = [entry[:3] for entry in seen]
+        located = all(entry[-1] is location for entry in seen)
+        return (key, (outcome, actual, "located" if located else "without the row's location"), ("accepted", expected, "located"))
+
+    decide(ctx, "O11.7", "add_data_format_row(cells reach DataFormat unchanged)", cid_qualname + ".add_data_format_row", cell, min_cells=60)
+
+
 def rule_set_property_main(ctx):
     rule_set_property(ctx, "O11.1")
 
 
-RULES = [rule_set_property_main, rule_defaults, rule_validated_character, rule_consistency, rule_documentation]
+RULES = [rule_set_property_main, rule_defaults, rule_validated_character, rule_consistency, rule_documentation, rule_property_row]
